@@ -539,7 +539,10 @@ class Sub:
 
     def _cases(self, tier):
         seen = set()
-        for (v, p, g, ov) in self.variants(tier):
+        full = list(self.variants(tier))
+        if tier == 'thorough':           # full product on the extended graph box too
+            full += list(self.sweep(tier))
+        for (v, p, g, ov) in full:
             for o in self.option_subsets():
                 for place in (('pre', 'post') if o else ('pre',)):
                     c = {'cmd': self.name, 'v': v, 'p': list(p), 'g': list(g),
@@ -1223,7 +1226,7 @@ class _Stone(Sub):
 
     def sweep(self, tier):
         for g in DAG_MORE:
-            yield 'sD', [2], [g], None
+            yield 'sD', [2], [g], {'sparse': 1}
 
     def positional(self, c, GT):
         return list(c['p']) + GT[0]
